@@ -377,3 +377,25 @@ Example C18_source_sample_segregating_example :
      = Ok (Ok [0; 3; 1; 3; 2; 0; 1], [RPermutation [0; 2; 4; 5; 6]])
   /\ run (sample_seg_prog [[0; 2; 4]] 3 0) [] = Ok (Err 94, []).
 Proof. vm_compute. repeat split; reflexivity. Qed.
+
+(* ---- the command-line wrapper calculate_scores.main is what the source says NOW ----
+   `src_cli_calculate_scores` is the whole function main of /repo's current batchie/cli/calculate_scores.py and
+   `src_get_prng_from_seed_argument` the whole function of cli/argument_parsing.py, re-translated on every run (harness/py2gal.py,
+   configurations CLI_CALCULATE_SCORES / CLI_PRNG -> Generated/SrcCli.v).  The wrapper hands score_chunk the generator derived from
+   --seed (rng = Some ..., never the library's unseeded default) - the defect repaired by 9b38441 was exactly its absence.
+   Model/Cli.v: the parsed arguments are a record of the plain argparse results (get_args() is not translated), `L` is a
+   record of the library functions the wrapper calls over abstract types (each component stands for the library function
+   of that name with its parameter list; `*_load_*` = what loading the file at a path yields), a main() denotes the list
+   of (path, content) files it writes, Err = the exception that ends it.  The links hold for EVERY such record. *)
+From Batchie Require Lib.PyRt Model.Cli Generated.SrcCli Proofs.C06SourceCli.
+Theorem C18_model_is_source_cli_get_prng_from_seed_argument : forall (mix : Z -> Z) (seed : Z),
+  SrcCli.src_get_prng_from_seed_argument mix seed
+  = Cli.prng_of_seed mix seed.
+Proof. exact C06SourceCli.src_get_prng_is_model. Qed.
+Print Assumptions C18_model_is_source_cli_get_prng_from_seed_argument.
+
+Theorem C18_model_is_source_cli_calculate_scores : forall (Scr Pl Th Dm Sc H : Type) (L : Cli.cs_lib Scr Pl Th Dm Sc H) (mix : Z -> Z) (a : Cli.cs_args),
+  SrcCli.src_cli_calculate_scores Scr Pl Th Dm Sc H L mix a
+  = Cli.cli_calculate_scores L mix a.
+Proof. exact C06SourceCli.src_cli_calculate_scores_is_model. Qed.
+Print Assumptions C18_model_is_source_cli_calculate_scores.
